@@ -36,6 +36,7 @@ func TestTimeHeap(t *testing.T) {
 	stats.Rule(check, "rapid state machine over timeheap.TimeHeap: Add(count 0..1000), Clear, Expire (= Sleep 3 ms then AveragePerSecond(1 ms) must be 0; at most 2 per history); after every step AveragePerSecond(1 h)*3600 must equal the sum of counts added since the last Clear/Expire; non-trivial = a Clear or Expire happened while the sum was positive and an Add followed; distinct by operation list")
 	rapid.Check(t, func(rt *rapid.T) {
 		h := newHist(check, "")
+		defer h.guard(rt)
 		th := timeheap.NewTimeHeap()
 		var sum int64
 		expiries := 0
